@@ -159,7 +159,8 @@ def arr(t, n):
     if n == 0 and t.integral:
         # the library's integral-array decoder forms &(*value)[0]; on a zero-length std::array libstdc++ yields a null reference there
         # (no memory is touched, zero bytes are transferred): UBSan's null check is switched off for these translation units only
-        r.tu.add("-fno-sanitize=null")
+        # (at -O1 the object-size check reports the same null reference, so both are off there)
+        r.tu.add("-fno-sanitize=null,object-size")
     return r
 
 
